@@ -42,6 +42,54 @@ def o_same_as(sim, op, spec, out):
     )
 
 
+def o_q_request(sim, op, spec, out):
+    """C07: a request resolves to the category / unit / caption / composing map it names, so that
+    requests that resolve differently return unequal quantities (e.g. a captioned request never
+    gets the caption-less twin that happens to be interned already)."""
+    import barril.units as u
+
+    if out[0] != "ok" or not isinstance(out[1], u.Quantity):
+        return
+    q = out[1]
+    form = spec["form"]
+    args, kw = sim.last_args, sim.last_kw
+    sid = spec["id"]
+    want_cap = None
+    want_map = None
+    want_unit = None
+    want_cat = None
+    if form in ("u", "uc", "ucc", "nonec", "legacy"):
+        un = args[0]
+        want_cat = args[1] if len(args) > 1 else None
+        want_cap = args[2] if len(args) > 2 else None
+        want_unit = M.current_spelling(un) if un is not None else None
+    elif form == "ctor":
+        want_cat, want_unit = args[0], M.current_spelling(args[1])
+    elif form == "derived":
+        want_map = [[c, M.current_spelling(ue[0]), ue[1]] for c, ue in args[0].items()]
+        want_cap = kw.get("unknown_unit_caption")
+    elif form == "derived_obtain":
+        want_map = [[c, M.current_spelling(ue[0]), ue[1]] for c, ue in args[0].items()]
+        want_cap = args[2] if len(args) > 2 else None
+    elif form in ("list", "list1"):
+        want_map = [[c, M.current_spelling(ue[0]), ue[1]] for c, ue in zip(args[1], args[0])]
+    elif form == "unknown_c":
+        want_cap = args[0] if args else None
+    sig = {"case": "request_not_honoured", "form": op["k"]}
+    if want_cap is not None:
+        sim.check(q.GetUnknownCaption() == want_cap, sid, dict(sig, field="caption"), op["i"], lambda: "requested caption %r, got quantity with caption %r" % (want_cap, q.GetUnknownCaption()))
+    elif form in ("u", "uc", "nonec", "derived", "derived_obtain", "list", "list1", "ctor", "legacy"):
+        sim.check(not q.GetUnknownCaption(), sid, dict(sig, field="caption"), op["i"], lambda: "request without caption got caption %r" % (q.GetUnknownCaption(),))
+    if want_cat is not None:
+        sim.check(q.GetCategory() == want_cat, sid, dict(sig, field="category"), op["i"], lambda: "requested category %r, got %r" % (want_cat, q.GetCategory()))
+    if want_unit is not None:
+        sim.check(q.GetUnit() == want_unit, sid, dict(sig, field="unit"), op["i"], lambda: "requested unit %r, got %r" % (want_unit, q.GetUnit()))
+    if want_map is not None and all(e != 0 for _c, _u, e in want_map):
+        # (whether a legacy spelling inside a composing map is rewritten is C16's subject, not C07's)
+        got = [[c, M.current_spelling(ue[0]), ue[1]] for c, ue in q.GetCategoryToUnitAndExps().items()]
+        sim.check(got == want_map, sid, dict(sig, field="composing_map"), op["i"], lambda: "requested map %r, got %r" % (want_map, got))
+
+
 def _is(sim, op, spec, out, orig):
     if out[0] != "ok" or orig is _MISSING:
         if out[0] == "exc":
@@ -241,17 +289,42 @@ def _rel(vals):
     return 1e-12
 
 
+def _representable(want, rel):
+    """Single-precision containers are converted in single precision: an expected amount outside
+    the float32 range (overflow to inf, underflow to 0/subnormal) cannot be compared."""
+    import math
+
+    if rel < 1e-7:
+        return True
+    try:
+        w = abs(float(want))
+    except Exception:
+        return False
+    if math.isnan(w) or math.isinf(w):
+        return False
+    return w == 0.0 or 1e-30 < w < 1e30
+
+
 def o_changing_index(sim, op, spec, out):
     import barril.units as u
 
     fa = sim.last_target
-    if out[0] != "ok" or not isinstance(fa, u.FixedArray):
+    if not isinstance(fa, u.FixedArray):
         return
-    res = out[1]
     idx, x = sim.last_args[0], sim.last_args[1]
     uvu = sim.last_kw.get("use_value_unit", True)
     sid = spec["id"]
     sig = {"form": "scalar" if isinstance(x, u.Scalar) else type(x).__name__, "use_value_unit": bool(uvu)}
+    if out[0] == "exc":
+        # a well-formed request (index in range, amount of the array's own quantity type, flat
+        # numeric container) must return the new array; arithmetic errors of the conversion itself
+        # (poles, overflow) are the only exceptions that are not the method's doing
+        if _changing_index_wellformed(fa, idx, x) and not isinstance(out[1], ArithmeticError):
+            sim.check(False, sid, dict(sig, case="valid_request_raises", exc=type(out[1]).__name__), op["i"], "ChangingIndex(%r, ...) on dimension %r raised %r" % (idx, fa.dimension, out[1]))
+        return
+    if out[0] != "ok":
+        return
+    res = out[1]
     if not sim.check(isinstance(res, u.FixedArray) and res is not fa, sid, dict(sig, case="not_new_fixedarray"), op["i"], "ChangingIndex returned %r" % (res,)):
         return
     if not sim.check(res.dimension == fa.dimension and len(res.GetValues()) == fa.dimension, sid, dict(sig, case="dimension"), op["i"], "dimension %r -> %r" % (fa.dimension, res.dimension)):
@@ -276,6 +349,7 @@ def o_changing_index(sim, op, spec, out):
     else:
         xv, xu = float(x), fa.GetUnit()
         want_unit = fa.GetUnit()
+    want_unit = M.current_spelling(want_unit)  # a legacy spelling is an alias of the table unit
     if not sim.check(res.GetUnit() == want_unit, sid, dict(sig, case="unit"), op["i"], "unit %r, expected %r" % (res.GetUnit(), want_unit)):
         return
     db = _db()
@@ -292,6 +366,9 @@ def o_changing_index(sim, op, spec, out):
             want = db.Convert(qt, xu, want_unit, float(xv))
         else:
             want = db.Convert(qt, fa.GetUnit(), want_unit, float(vals[j]))
+        if not _representable(want, rel) or not all(_representable(v, rel) for v in vals):
+            sim.count("oracle_inapplicable:single_precision_range")
+            continue
         if not sim.check(
             M.close(got[j], want, rel),
             sid,
@@ -302,16 +379,53 @@ def o_changing_index(sim, op, spec, out):
             return
 
 
+def _changing_index_wellformed(fa, idx, x):
+    import barril.units as u
+
+    try:
+        n = fa.dimension
+        vals = list(fa.GetValues())
+        if not (isinstance(idx, int) and -n <= idx < n and len(vals) == n and _flat(vals)):
+            return False
+        if fa.GetQuantity().IsDerived() or not M.is_simple_known(fa):
+            return False
+        qt = fa.GetQuantityType()
+        if isinstance(x, u.Scalar):
+            return (not x.GetQuantity().IsDerived()) and x.GetQuantityType() == qt and _flat([x.GetValue()])
+        if isinstance(x, tuple):
+            return len(x) == 2 and _flat([x[0]]) and isinstance(x[1], str) and M.unit_type(x[1]) == qt
+        return _flat([x])
+    except Exception:
+        return False
+
+
 def o_index_as_scalar(sim, op, spec, out):
     import barril.units as u
 
     fa = sim.last_target
-    if out[0] != "ok" or not isinstance(fa, u.FixedArray):
+    if not isinstance(fa, u.FixedArray):
         return
-    res = out[1]
     idx = sim.last_args[0]
     q = sim.last_args[1] if len(sim.last_args) > 1 else fa.GetQuantity()
     sid = spec["id"]
+    if out[0] == "exc":
+        try:
+            wf = (
+                isinstance(idx, int)
+                and -fa.dimension <= idx < fa.dimension
+                and _flat(list(fa.GetValues()))
+                and M.is_simple_known(fa)
+                and not q.IsDerived()
+                and q.GetQuantityType() == fa.GetQuantityType()
+            )
+        except Exception:
+            wf = False
+        if wf and not isinstance(out[1], ArithmeticError):
+            sim.check(False, sid, {"case": "valid_request_raises", "exc": type(out[1]).__name__}, op["i"], "IndexAsScalar(%r) on dimension %r raised %r" % (idx, fa.dimension, out[1]))
+        return
+    if out[0] != "ok":
+        return
+    res = out[1]
     if not sim.check(isinstance(res, u.Scalar), sid, {"case": "not_scalar"}, op["i"], "IndexAsScalar returned %r" % (res,)):
         return
     if fa.GetQuantity().IsDerived() or q.IsDerived() or not M.is_simple_known(fa) or q.GetQuantityType() != fa.GetQuantityType():
@@ -322,6 +436,9 @@ def o_index_as_scalar(sim, op, spec, out):
         sim.count("oracle_inapplicable:non_flat_container")
         return
     want = _db().Convert(fa.GetQuantityType(), fa.GetUnit(), q.GetUnit(), float(vals[idx]))
+    if not _representable(want, _rel(vals)) or not _representable(vals[idx], _rel(vals)):
+        sim.count("oracle_inapplicable:single_precision_range")
+        return
     sim.check(M.close(res.GetValue(), want, _rel(vals)), sid, {"case": "amount"}, op["i"], lambda: "got %r expected %r" % (res.GetValue(), want))
 
 
@@ -355,6 +472,7 @@ def o_target_unchanged(sim, op, spec, out):
 
 ORACLES = {
     "same_as": o_same_as,
+    "q_request": o_q_request,
     "is_arg": o_is_arg,
     "is_target": o_is_target,
     "eq_arg": o_eq_arg,
